@@ -38,14 +38,16 @@ class Math:
                 ninf = z3.Or(*[x.t == 2 for x in xs])
                 anynan = z3.Or(*[x.t == NAN for x in xs])
                 allfin = z3.And(*[x.t == FIN for x in xs])
-                if ctx.branch(z3.And(pinf, ninf, z3.Not(anynan))):
-                    raise PyRaise('ValueError', payload=ExcInstance('ValueError'), note='math.fsum: -inf + inf in fsum')
-                if ctx.branch(z3.And(allfin, ctx.bool('fsum.intermediate-overflow', report=False))):
+                anyfin = z3.Or(*[x.t == FIN for x in xs])
+                if ctx.branch(z3.And(anyfin, ctx.bool('fsum.intermediate-overflow', report=False))):
                     raise PyRaise('OverflowError', payload=ExcInstance('OverflowError'), note='math.fsum: intermediate overflow in fsum')
+                if ctx.branch(z3.And(pinf, ninf)):
+                    raise PyRaise('ValueError', payload=ExcInstance('ValueError'), note='math.fsum: -inf + inf in fsum')
                 r = fp_apply(ctx, 'fsum%d' % len(xs), *xs)
                 ctx.assume(z3.And(z3.Implies(allfin, r.t == FIN), z3.Implies(anynan, r.t == NAN),
                                   z3.Implies(z3.And(pinf, z3.Not(anynan)), r.t == 1), z3.Implies(z3.And(ninf, z3.Not(anynan)), r.t == 2)),
-                           axiom='math.fsum: finite inputs give a finite sum or OverflowError; a nan input gives nan; +inf and -inf together raise ValueError; otherwise the infinity')
+                           axiom='math.fsum: may raise OverflowError (intermediate overflow of the finite partial sums); +inf and -inf together raise ValueError; '
+                                 'otherwise nan if an input is nan, else the infinity present, else a finite sum')
                 return r
             return fsum
         if name == 'sqrt':
